@@ -397,9 +397,21 @@ def write_factors(d, path):
                 off = AFFINE.get(en['abbreviation'], F(0)) if e['type'] == 'Temperature' else F(0)
                 f.write('%s %d %s %d %d %d %d %d\n' % (e['type'], en['value'], en['name'], mag.numerator, mag.denominator, pi, off.numerator, off.denominator))
 
+def write_systems(d, path):
+    """per unit type: declared dimension exponents and the consistent unit of each system; per system: exact base magnitudes (L, M, T, Theta)"""
+    us, bases = system_bases(d)
+    with open(path, 'w') as f:
+        for sname, (sval, b) in bases.items():
+            f.write('BASE %s %d %d %d %d %d %d %d %d\n' % (sname, b['L'].numerator, b['L'].denominator, b['M'].numerator, b['M'].denominator, b['T'].numerator, b['T'].denominator, b['H'].numerator, b['H'].denominator))
+        for e in unit_types(d):
+            f.write('DIMS %s %s\n' % (e['type'], ' '.join(str(x) for x in e['dimensions'])))
+            for sname, cu in e['consistent_unit'].items():
+                if cu is not None: f.write('SYS %s %s %d\n' % (e['type'], sname, cu))
+
 def main():
     if sys.argv[1] == 'factors':
-        write_factors(json.load(open(sys.argv[2])), sys.argv[3]); return 0
+        d = json.load(open(sys.argv[2]))
+        write_factors(d, sys.argv[3]); write_systems(d, sys.argv[3] + '.systems'); return 0
     prop, intro, out = sys.argv[2], sys.argv[3], sys.argv[4]
     d = json.load(open(intro))
     t0 = time.time()
